@@ -157,6 +157,8 @@ func sink(point string, args ...any) {
 	if len(args) > 0 {
 		if tc, ok := args[0].(*trackedConn); ok {
 			cid = tc.id
+		} else if _, isConn := args[0].(net.Conn); isConn {
+			return // a connection of the untraced side stack (goroutine census)
 		}
 	}
 	g := goid()
@@ -202,8 +204,11 @@ func sink(point string, args ...any) {
 		}
 	case "proxyserver.counted":
 		r.mu.Lock()
-		c := r.byGo[g]
+		c, known := r.byGo[g]
 		r.mu.Unlock()
+		if !known {
+			return // counted on a goroutine of the untraced side stack
+		}
 		r.emit(map[string]any{"op": "counted", "c": c, "ok": args[0], "proto": args[1]})
 	case "proxyserver.conn.exit":
 		r.emit(map[string]any{"op": "exit", "c": cid})
